@@ -39,6 +39,10 @@ func runC01(c *run.Ctx) {
 	if c.Idx%7 == 3 {
 		world.AddDefaultNamespaceWorkloads(g, w, cfg)
 	}
+	if g.P(0.15) {
+		world.AddSharedEgressPolicy(g, w)
+	}
+	world.AddTwinNamedPortPolicy(g, w) // only acts on worlds that hold true twins
 	r.Hash = w.Hash()
 	r.Feat(w.Features...)
 	for _, f := range w.Features {
